@@ -21,12 +21,12 @@ def run(ctx):
     # generated executions
     cases = []
     sc = _score.generate(ctx, True, only=["F3-wide-windows", "F6-mixed", "F7-type-gaps", "F5-dictionary"])
-    stride = max(1, len(sc) // (200 if ctx.quick else 3000))
+    stride = max(1, len(sc) // (200 if ctx.quick else 1500))
     for fam, c in sc[::stride]:
         c = dict(c, runs=c["runs"][len(cases) % 3::max(1, len(c["runs"]) // 8)][:10])
         cases.append(_score.to_history(len(cases), fam, c))
     tg = C06.generate(ctx, True)
-    stride = max(1, len(tg) // (150 if ctx.quick else 2000))
+    stride = max(1, len(tg) // (150 if ctx.quick else 1000))
     for fam, c in tg[::stride]:
         c = dict(c, runs=c["runs"][len(cases) % 3::max(1, len(c["runs"]) // 8)][:10])
         cases.append(C06.to_history(len(cases), fam, c))
@@ -36,7 +36,7 @@ def run(ctx):
         d["kind"] = "history"
         d["opts"] = {"writers": True, "reparse": False}
         send.append(d)
-    gen = vlib.record_events(dbg, "gencases", 700 if ctx.quick else 12000, ctx.seed, "C18-gencases")
+    gen = vlib.record_events(dbg, "gencases", 700 if ctx.quick else 5000, ctx.seed, "C18-gencases")
     for g in gen:
         g.pop("with_tags")
         g["id"] = 10 ** 6 + g["id"]
@@ -45,7 +45,7 @@ def run(ctx):
         send.append(g)
     # filters on class-rich texts with every label (grapheme / line-break / type filters use unchecked indexing)
     fl = C15.gen(ctx, "c18-filters", [97, 769, 8205, 128104, 127471, 13, 10, 12354], {1, 2}, 4 if ctx.quick else 5, ["G", "L", "H"])
-    for c in fl[:: max(1, len(fl) // (700 if ctx.quick else 20000))]:
+    for c in fl[:: max(1, len(fl) // (700 if ctx.quick else 5000))]:
         ops = []
         for f in ("G", "L", "H", "O"):
             ops += [{"op": "build", "sent": {"text": c["text"], "bnd": c["bnd"], "ntags": 1,
@@ -57,7 +57,7 @@ def run(ctx):
     lc, preds = L.generate(ctx, 3, 1)
     risky = [c for c in lc if any(o["op"] == "fill_tags" for o in c["ops"][:-14])]
     rest = [c for c in lc if not any(o["op"] == "fill_tags" for o in c["ops"][:-14])]
-    for c in risky[:: (1 if len(risky) < 2500 or not ctx.quick else 2)] + rest[:: max(1, len(rest) // (300 if ctx.quick else 20000))]:
+    for c in risky[:: (1 if len(risky) < 2500 or not ctx.quick else 2)] + rest[:: max(1, len(rest) // (300 if ctx.quick else 3000))]:
         send.append({"id": 3 * 10 ** 6 + len(send), "kind": "history", "preds": preds, "ops": c["ops"], "opts": {"writers": True, "reparse": False}})
     o_dbg = vlib.run_replay(dbg, send, "C18-debug")
     o_rel = vlib.run_replay(rel, send, "C18-release")
